@@ -283,7 +283,9 @@ public:
     _vCutThreshold = 1000;
     _gamma         = 1.5;
     _alpha   = numEdges * pow(numHosts, _gamma - 1.0) / pow(numNodes, _gamma);
-    _neRatio = (double)numNodes / (double)numEdges;
+    // a graph without edges: the edge term of the balance score is void
+    // (inf * 0 would make every score NaN and leave no best host)
+    _neRatio = numEdges ? (double)numNodes / (double)numEdges : 0.0;
   }
 
   template <typename EdgeTy>
@@ -426,7 +428,9 @@ public:
     _vCutThreshold = 1000;
     _gamma         = 1.5;
     _alpha   = numEdges * pow(numHosts, _gamma - 1.0) / pow(numNodes, _gamma);
-    _neRatio = (double)numNodes / (double)numEdges;
+    // a graph without edges: the edge term of the balance score is void
+    // (inf * 0 would make every score NaN and leave no best host)
+    _neRatio = numEdges ? (double)numNodes / (double)numEdges : 0.0;
   }
 
   template <typename EdgeTy>
@@ -599,7 +603,9 @@ public:
     _vCutThreshold = 1000;
     _gamma         = 1.5;
     _alpha   = numEdges * pow(numHosts, _gamma - 1.0) / pow(numNodes, _gamma);
-    _neRatio = (double)numNodes / (double)numEdges;
+    // a graph without edges: the edge term of the balance score is void
+    // (inf * 0 would make every score NaN and leave no best host)
+    _neRatio = numEdges ? (double)numNodes / (double)numEdges : 0.0;
     // CVC things
     factorizeHosts();
   }
@@ -793,7 +799,9 @@ public:
     _vCutThreshold = 1000;
     _gamma         = 1.5;
     _alpha   = numEdges * pow(numHosts, _gamma - 1.0) / pow(numNodes, _gamma);
-    _neRatio = (double)numNodes / (double)numEdges;
+    // a graph without edges: the edge term of the balance score is void
+    // (inf * 0 would make every score NaN and leave no best host)
+    _neRatio = numEdges ? (double)numNodes / (double)numEdges : 0.0;
     // CVC things
     factorizeHosts();
   }
